@@ -11,6 +11,8 @@ import (
 // VerifResetSigCache clears the process wide signature cache. The verification harness runs several nodes with
 // different node keys in one process; the cache is keyed by block hash only.
 func VerifResetSigCache() {
+	sigCache.Lock()
+	defer sigCache.Unlock()
 	sigCache.Hash = common.Hash{}
 	sigCache.Sig = nil
 }
